@@ -70,6 +70,8 @@ FIXED += [
      "Close before Subscribe, then Subscribe over a transport that does not watch its context: one full attempt ran and its whole stream was delivered after Close had returned"),
     ("D22", ["C03"], "fix: delete fan-out keeps prefix elements given in the deprecated string encoding", "oracle",
      "update with prefix element:[a b] (deprecated strings) and path elem:[c], then delete [a]: the leaf a/b/c is removed but the feed announces a delete of [c]"),
+    ("D23", ["C04", "C06"], "fix: a streaming subscription without a path field is registered for the prefix itself", "oracle",
+     "STREAM subscription {prefix:{target:t0} subscription:{}} (path field unset): snapshot and sync are sent, later updates of t0 are never streamed"),
 ]
 OPEN = [
     dict(id="D15", properties=["C19"], status="open", **{"class": "query-elem-edge-slash"}, part="query",
